@@ -489,7 +489,7 @@ func runOneSubproc(rec []uint32, cfg Config, timeout time.Duration) (sig, detail
 	cmd.Env = append(os.Environ(), cfg.ExtraWorkerEnv...)
 	cmd.Env = append(cmd.Env, "VERIF_WORKDIR="+dir, "VERIF_WORKER_TIER="+Tier())
 	if cfg.RaceLog {
-		cmd.Env = append(cmd.Env, "GORACE=log_path="+dir+"/race exitcode=0 halt_on_error=0")
+		cmd.Env = append(cmd.Env, "GORACE=log_path="+dir+"/race exitcode=0 halt_on_error=0 atexit_sleep_ms=0")
 	}
 	var stdout, stderr strings.Builder
 	cmd.Stdout = &stdout
@@ -981,7 +981,7 @@ func runWorker(j job, cfg Config, workdir string) (fs []found, trouble []string,
 		cmd.Env = append(os.Environ(), cfg.ExtraWorkerEnv...)
 		cmd.Env = append(cmd.Env, "VERIF_WORKDIR="+dir, "VERIF_WORKER_TIER="+Tier())
 		if cfg.RaceLog {
-			cmd.Env = append(cmd.Env, "GORACE=log_path="+dir+"/race exitcode=0 halt_on_error=0")
+			cmd.Env = append(cmd.Env, "GORACE=log_path="+dir+"/race exitcode=0 halt_on_error=0 atexit_sleep_ms=0")
 		}
 		stderrPath := filepath.Join(dir, "stderr")
 		ef, _ := os.Create(stderrPath)
@@ -1138,7 +1138,7 @@ func confirmSeed(cs uint64, cfg Config, timeout time.Duration) (sig, detail stri
 	cmd.Env = append(os.Environ(), cfg.ExtraWorkerEnv...)
 	cmd.Env = append(cmd.Env, "VERIF_WORKDIR="+dir, "VERIF_WORKER_TIER="+Tier())
 	if cfg.RaceLog {
-		cmd.Env = append(cmd.Env, "GORACE=log_path="+dir+"/race exitcode=0 halt_on_error=0")
+		cmd.Env = append(cmd.Env, "GORACE=log_path="+dir+"/race exitcode=0 halt_on_error=0 atexit_sleep_ms=0")
 	}
 	var stdout, stderr strings.Builder
 	cmd.Stdout, cmd.Stderr = &stdout, &stderr
